@@ -415,11 +415,24 @@ def run_sess(case):
         # derived paths
         ex = session.extra_resource_path(S(case['suffix']))
         out['extra'] = None if ex is None else L(ex)
-        fake = types.SimpleNamespace(
-            _file_writer_session=session,
-            _item_session=types.SimpleNamespace(app_session=types.SimpleNamespace(factory={'PathNamer': pn})))
+        # the symlink wpull creates for a listing entry (--retr-symlinks=off): a LIST line goes through the real
+        # ListingParser and the real FTPProcessorSession._add_listing_links -> _make_symlink
+        from wpull.protocol.ftp.ls.listing import ListingParser
+        NS = types.SimpleNamespace
         try:
-            PF.FTPProcessorSession._make_symlink(fake, S(case['link']), 'target')
+            entries = list(ListingParser(text='lrwxrwxrwx 1 root root 4 Jan  1  2015 %s -> /etc/passwd\n' % S(case['link'])).parse_input())
+        except Exception:
+            entries = []
+        syms = [e for e in entries if e.type == 'symlink'][:1]
+        out['link_parsed'] = L(syms[0].name) if syms else None
+        obj = PF.FTPProcessorSession.__new__(PF.FTPProcessorSession)
+        obj._processor = NS(fetch_params=NS(retr_symlinks=False))
+        obj._item_session = NS(app_session=NS(factory={'PathNamer': pn}), url_record=NS(level=0), add_child_url=lambda *a, **k: None)
+        obj._file_writer_session = session
+        obj._glob_pattern = None
+        obj._fetch_rule = NS(check_ftp_request=lambda item_session: (False, None))
+        try:
+            obj._add_listing_links(NS(files=syms, request=NS(url_info=NS(url='ftp://h/d/'))))
             out['symlink'] = {'ok': syml[-1] if syml else None}
         except Exception as e:
             name = type(e).__name__
